@@ -277,6 +277,103 @@ def main_script_kill_case(args):
         shutil.rmtree(tmp, ignore_errors=True)
 
 
+STRACE_SCRIPT = r"""
+import os, sys
+from verif_lt.common import silence_labtech
+silence_labtech()
+from verif_lt.savepath import good_run
+from labtech.storage import LocalStorage
+d, case, overwrite = sys.argv[1], sys.argv[2], sys.argv[3] == '1'
+LocalStorage(d)
+if overwrite:
+    good_run(d, case, 1)
+os.mkdir(os.path.join(os.path.dirname(d), 'MARK'))          # everything after this syscall is the save under observation
+good_run(d, case, 2, bust=overwrite)
+"""
+
+
+def strace_case(args):
+    """The raw-operation log is what the kernel sees: the same save in a fresh interpreter under
+    strace must show the same sequence of mkdir / open(O_TRUNC) / write(n bytes) / close / unlink /
+    rename system calls on the storage directory."""
+    import re
+    import subprocess
+    case, overwrite = args
+    silence_labtech()
+    log, template, top = record_log(case, overwrite)
+    want = []
+    for op in log:
+        if op[0] == 'pywrite' or op[1].endswith('.gitignore'):
+            continue
+        if op[0] == 'write':
+            want.append(('write', op[1], len(op[2])))
+        elif op[0] == 'open':
+            want.append(('open', op[1]))
+        elif op[0] == 'rename':
+            want.append(('rename', op[1], op[2]))
+        else:
+            want.append((op[0], op[1]))
+    tmp = tmpdir('c13t_')
+    try:
+        d = os.path.join(tmp, 'live')
+        os.makedirs(d)
+        script = os.path.join(tmp, 'save.py')
+        open(script, 'w').write(STRACE_SCRIPT)
+        out = os.path.join(tmp, 'trace.txt')
+        p = subprocess.run(['strace', '-f', '-y', '-s', '0', '-e', 'trace=openat,open,creat,mkdir,mkdirat,write,close,unlink,unlinkat,rmdir,rename,renameat,renameat2',
+                            '-o', out, sys.executable, script, d, case, '1' if overwrite else '0'], capture_output=True, text=True, timeout=300)
+        if p.returncode != 0:
+            raise HarnessError(f'strace run failed: {p.stderr[-600:]}')
+        got = []
+        seen_mark = False
+        pre = d + os.sep
+        for line in open(out):
+            if not seen_mark:
+                seen_mark = 'MARK' in line and 'mkdir' in line
+                continue
+            m = re.match(r'^\d+\s+(\w+)\((.*)\)\s+=\s+(-?\d+)', line)
+            if not m or int(m.group(3)) < 0:
+                continue
+            call, argtxt, ret = m.group(1), m.group(2), int(m.group(3))
+            paths = [x for x in re.findall(r'"([^"]*)"', argtxt)] + re.findall(r'<([^>]*)>', argtxt + line[m.end(2):])
+            paths = [x for x in paths if x.startswith(pre)]
+            if not paths or paths[0].endswith('.gitignore'):
+                continue
+            rel = os.path.relpath(paths[0], d)
+            if call in ('mkdir', 'mkdirat'):
+                got.append(('mkdir', rel))
+            elif call in ('openat', 'open', 'creat'):
+                if 'O_WRONLY' in argtxt or 'O_RDWR' in argtxt or call == 'creat':
+                    got.append(('open', rel))
+            elif call == 'write':
+                got.append(('write', rel, ret))
+            elif call == 'close':
+                got.append(('close', rel))
+            elif call in ('unlink', 'rmdir') or (call == 'unlinkat'):
+                got.append(('rmdir' if ('AT_REMOVEDIR' in argtxt or call == 'rmdir') else 'unlink', rel))
+            elif call.startswith('rename'):
+                got.append(('rename', rel, os.path.relpath(paths[-1], d)))
+        # closes of handles that were only read are not in the raw log: keep closes that follow an open of the same file
+        opened = set()
+        flt = []
+        for op in got:
+            if op[0] == 'open':
+                opened.add(op[1])
+                flt.append(op)
+            elif op[0] == 'close':
+                if op[1] in opened:
+                    opened.discard(op[1])
+                    flt.append(op)
+            elif op[0] == 'write' and op[1] not in opened:
+                continue
+            else:
+                flt.append(op)
+        return case, overwrite, want, flt
+    finally:
+        shutil.rmtree(tmp, ignore_errors=True)
+        shutil.rmtree(top, ignore_errors=True)
+
+
 def count_lines(case):
     top = tmpdir('c13c_')
     try:
@@ -346,6 +443,13 @@ def run(tier: str, seed: int) -> Result:
             n_same_killed += 1 if killed else 0
             for key, msg in res:
                 viols.append(Violation('C13', key, msg, {'tier': tier, 'clause': key, 'msg': msg}, size=2000))
+        # the raw-operation log against the system calls of the same save in a fresh interpreter
+        n_strace = 0
+        if shutil.which('strace'):
+            for case, ow, want, got in pmap(strace_case, [(c, ow) for c in (cases if tier != 'quick' else ['pickle-small']) for ow in (False, True)]):
+                n_strace += 1
+                if want != got:
+                    raise HarnessError(f'raw-operation log of {case} (overwrite={ow}) differs from the system calls strace sees: log {want[:12]} ... strace {got[:12]} ...')
         # task types defined in the main script, real spawn (and fork) workers killed mid-overwrite
         mk = [('spawn', k) for k in (range(1, nl + 1) if tier != 'quick' else range(2, nl + 1, 7))] + [('fork', k) for k in (range(1, nl + 1, 3) if tier != 'quick' else range(3, nl + 1, 17))]
         n_main = n_main_killed = 0
@@ -360,6 +464,7 @@ def run(tier: str, seed: int) -> Result:
     cov = {
         'same_lab_real_kill_histories': n_same,
         'same_lab_histories_in_which_the_worker_died': n_same_killed,
+        'raw_logs_equal_to_the_system_calls_seen_by_strace': n_strace,
         'main_script_real_kill_histories': n_main,
         'main_script_histories_in_which_the_worker_died': n_main_killed,
         'evaluations': n_states + n_kills + n_same + n_main,
